@@ -1,6 +1,6 @@
 SPECIFICATION GSpec
 CONSTANTS N = 3
-          OUTER = TRUE
+          OUTER = FALSE
           AFTER = FALSE
 CHECK_DEADLOCK FALSE
 INVARIANT Emit
